@@ -83,13 +83,22 @@ func seedStore(ctx context.Context, dir string) error {
 	return t.Commit(ctx)
 }
 
+// debugErr prints error texts when VERIF_C14_ERRS is set (diagnosis only; classes never depend on the text)
+func debugErr(err error) {
+	if err != nil && os.Getenv("VERIF_C14_ERRS") != "" {
+		fmt.Fprintln(os.Stderr, "ERR:", err)
+	}
+}
+
 func cls(err error) int {
+	debugErr(err)
 	if err != nil {
 		return rErr
 	}
 	return rOk
 }
 func clsB(ok bool, err error) int {
+	debugErr(err)
 	if err != nil {
 		return rErr
 	}
